@@ -162,10 +162,14 @@ def flatten(ctx):
     expect_term(ctx, "C08.4", "flatten/per-entry", site(entry[0][0]), body_t, exp,
                 "for every entry with a path: if recursive derives are registered for that path, collect the ids reachable from THIS entry and give each of them those derives")
     # which map is consulted with which key
-    look = [n for n in walk(entry[0][1][2]) if n.get("k") == "MethodCall" and peel(n["recv"].get("adj") or n["recv"].get("ty", "")).startswith("std::collections::HashMap<syn::TypePath")]
-    ok = len(look) == 1 and show(N.term(look[0]["args"][0], syms)) == "HashMap::get(PATHS,%s.id)@v1::Some.0" % E and "recursive_type_derives" in show(N.term(look[0]["recv"], syms))
+    # (on the term of the loop body, so that the look-up may sit in a combinator closure: every look-up in a path-keyed map is the recursive map
+    # asked for this entry's own path)
+    import re as _re
+    asked = _re.findall(r"HashMap::get\((P0\.\w+),", body_t)
+    ok = bool(asked) and all(a == "P0.recursive_type_derives" for a in asked) \
+        and body_t.count("HashMap::get(P0.recursive_type_derives,") == body_t.count(RD)
     ctx.expect(ok, "C08.4", "flatten/lookup-key", site(entry[0][0]), "the recursive map is consulted with this entry's own path",
-               "look-ups on path-keyed maps in the entry loop: %s" % [show(N.term(x, syms))[:160] for x in look])
+               "look-ups on settings maps in the entry loop: %s; loop body: %s" % (asked, body_t[:400]))
     merge = [(n, fl) for n, fl in loops if show(N.term(fl[1], syms)) == "ADD"]
     if len(merge) != 1:
         ctx.bad("C08.4", "missing-anchor/merge-loop", fn["sp"], "merge loop over the per-id derives not found")
